@@ -100,7 +100,7 @@ func mutateYAML(t *rapid.T, text string, k int) (string, []string) {
 			break
 		}
 		s := slots[rapid.IntRange(0, len(slots)-1).Draw(t, "slot")]
-		op := rapid.SampledFrom([]string{"scalar", "scalar", "delete", "empty-seq", "empty-map", "null", "dup", "wrap-seq", "swap", "wrap-map"}).Draw(t, "yop")
+		op := rapid.SampledFrom([]string{"scalar", "scalar", "delete", "empty-seq", "empty-map", "null", "dup", "wrap-seq", "swap", "wrap-map", "alias"}).Draw(t, "yop")
 		ops = append(ops, op)
 		p := s.parent
 		switch op {
@@ -134,6 +134,22 @@ func mutateYAML(t *rapid.T, text string, k int) (string, []string) {
 			p.Content[s.idx] = &yaml.Node{Kind: yaml.SequenceNode, Tag: "!!seq", Content: []*yaml.Node{p.Content[s.idx]}}
 		case "wrap-map":
 			p.Content[s.idx] = &yaml.Node{Kind: yaml.MappingNode, Tag: "!!map", Content: []*yaml.Node{scalarNode(pick(t, yamlScalars, "key")), p.Content[s.idx]}}
+		case "alias":
+			// anchor the node and put an alias to it somewhere else: after it, before it (an unknown anchor), in
+			// place of an ancestor (the anchor disappears) or inside the node itself (an anchor that contains itself)
+			target := p.Content[s.idx]
+			target.Anchor = fmt.Sprintf("a%d", i)
+			var inside []yslot
+			yamlSlots(target, &inside)
+			cand := slots
+			if len(inside) > 0 && rapid.Bool().Draw(t, "aliasInside") {
+				cand = inside
+				ops[len(ops)-1] = "alias-inside-its-anchor"
+			}
+			o := cand[rapid.IntRange(0, len(cand)-1).Draw(t, "aliasSlot")]
+			if o.parent.Content[o.idx] != target {
+				o.parent.Content[o.idx] = &yaml.Node{Kind: yaml.AliasNode, Alias: target, Value: target.Anchor}
+			}
 		case "swap":
 			o := slots[rapid.IntRange(0, len(slots)-1).Draw(t, "slot2")]
 			if o.parent == p && o.idx < len(p.Content) {
@@ -150,6 +166,10 @@ func mutateYAML(t *rapid.T, text string, k int) (string, []string) {
 
 var rawProfiles = []string{"", " ", "\n", "# only a comment\n", "---\n", "--- \n...\n", "a: 1\n---\nb: 2\n", "- a\n- b\n", "5", "null", "~", "\"str\"", "profile: x", "profile: x\nvalidations: 5\n",
 	"profile: x\nvalidations: {}\n", "profile: [a]\nvalidations: {}\n", "profile: x\nvalidations:\n  v: 5\nviolation: [v]\n", "profile: x\nvalidations:\n  v: {}\nviolation: [v]\n",
+	"profile: x\nvalidations:\n  v:\n    targetClass: ex.T\n    not: &n\n      not: *n\nviolation: [v]\nprefixes: {ex: 'http://e/'}\n",
+	"profile: x\nvalidations:\n  v:\n    targetClass: ex.T\n    propertyConstraints:\n      ex.a:\n        in: &v [ *v ]\nviolation: [v]\nprefixes: {ex: 'http://e/'}\n",
+	"&r\nprofile: x\nvalidations: *r\n", "profile: x\nvalidations: &v\n  v: *v\nviolation: [v]\n", "profile: x\nvalidations:\n  v: &b\n    targetClass: ex.T\n    and: [*b, *b]\nviolation: [v]\nprefixes: {ex: 'http://e/'}\n",
+	"profile: x\nvalidations:\n  v: &b\n    targetClass: ex.T\n    propertyConstraints: &pc\n      ex.a: {minCount: 1}\n  w:\n    targetClass: ex.U\n    propertyConstraints: *pc\nviolation: [v, w]\nprefixes: {ex: 'http://e/'}\n",
 	"base: &a {targetClass: ex.T}\nprofile: x\nvalidations:\n  v: *a\nviolation: [v]\n", "profile: x\nviolation: v\nvalidations:\n  v: {targetClass: ex.T}\n",
 	"profile: x\nprefixes: 5\nvalidations: {}\n", "profile: x\nprefixes: {ex: 5}\nvalidations: {}\n", "\tprofile: x\n", "profile: x\nvalidations:\n  v:\n    targetClass: zz.T\n    propertyConstraints: {}\nviolation: [v]\n",
 	"profile: x\nvalidations:\n  v:\n    targetClass: ex.T\n    propertyConstraints:\n      ex.a: 5\nviolation: [v]\nprefixes: {ex: 'http://e/'}\n",
@@ -366,7 +386,18 @@ func genC17(t *rapid.T) c17Case {
 	return c
 }
 
+// decideC17 bounds the entry point in time: "terminates, never blocks" is decided by a bound far above the cost
+// of the same calls on the unchanged tree, with a control call that rules out a stalled machine.
 func decideC17(c c17Case) ev.Verdict {
+	v, ok := returnsInTime("C17", func() ev.Verdict { return decideC17Calls(c) })
+	if !ok {
+		ev.Abort("C17", "TestC17", c, ev.Violation("c17-no-return@"+c.Entry, "%s has not returned after %d s (a trivial control call returns at once)\nprofile (%d bytes):\n%s\ndata (%d bytes):\n%s",
+			c.Entry, noReturnSecs(), len(c.Profile), trunc(c.Profile, 1500), len(c.Data), trunc(c.Data, 600)))
+	}
+	return v
+}
+
+func decideC17Calls(c c17Case) ev.Verdict {
 	var res call
 	compiled := true
 	switch c.Entry {
